@@ -1,5 +1,251 @@
 import EmsModel.Core.Named
+import EmsModel.Lemmas.NDArray
+/-!
+# C03 — flattening and winding variables are exact inverses
+
+Property theorems only (helper lemmas live in `Lemmas/NDArray.lean`; the few list facts
+needed only here are marked `private`-style with a leading underscore section below).
+All statements are for arbitrary rank, sizes, dimension order and position.
+-/
 namespace Ems.C03
-open Ems
-theorem placeholder : True := trivial
+open Ems Ems.NArr
+
+variable {α : Type}
+
+/-! ### list facts used below -/
+
+theorem filter_names (dims : List Dim) (p : String → Bool) :
+    (dims.filter (fun d => p d.1)).map (·.1) = (dims.map (·.1)).filter p := by
+  induction dims with
+  | nil => rfl
+  | cons x xs ih =>
+    simp only [List.filter_cons, List.map_cons]
+    split <;> simp [ih]
+
+theorem moveOrder_perm (names dims : List String) (hn : names.Nodup) (hd : dims.Nodup)
+    (hsub : ∀ d ∈ dims, d ∈ names) :
+    ((names.filter (fun d => !dims.contains d)) ++ dims).Perm names := by
+  have h1 := List.filter_append_perm (fun d => !dims.contains d) names
+  have h2 : dims.Perm (names.filter (fun d => !!dims.contains d)) := by
+    rw [List.perm_ext_iff_of_nodup hd (hn.filter _)]
+    intro d
+    simp only [List.mem_filter, Bool.not_not, List.contains_iff_mem]
+    exact ⟨fun h => ⟨hsub d h, h⟩, fun h => h.2⟩
+  exact (List.Perm.append_left _ h2).trans h1
+
+theorem idxOf_append_fresh (l : List String) (x : String) (r : List String) (h : x ∉ l) :
+    (l ++ x :: r).idxOf? x = some l.length := by
+  induction l with
+  | nil => simp [List.idxOf?_cons]
+  | cons y ys ih =>
+    have hy : (y == x) = false := by
+      have : y ≠ x := fun e => h (by simp [e])
+      simp [this]
+    have := ih (fun hm => h (by simp [hm]))
+    simp [List.idxOf?_cons, hy, this]
+
+/-! ### `move_dimensions_to_end` is a genuine transposition -/
+
+/-- The result of moving dimensions to the end has the other dimensions first, in their
+original order, then the requested ones in the requested order, each with its own size. -/
+theorem moveToEnd_dims [Inhabited α] (a : NArr α) (gd : List Dim) (hwf : a.WF)
+    (hgn : (gd.map (·.1)).Nodup) (hsub : ∀ d ∈ gd, d ∈ a.dims) :
+    ∃ m, a.moveToEnd (gd.map (·.1)) = some m ∧
+      m.dims = a.dims.filter (fun d => !(gd.map (·.1)).contains d.1) ++ gd ∧ m.data.length = a.data.length := by
+  have hall : (gd.map (·.1)).all (a.names.contains ·) = true := by
+    simp only [List.all_eq_true, List.contains_iff_mem]
+    intro d hd
+    obtain ⟨d', hd', rfl⟩ := List.mem_map.mp hd
+    exact List.mem_map_of_mem (hsub d' hd')
+  refine ⟨_, by unfold moveToEnd; rw [if_pos hall], ?_, ?_⟩
+  · simp only [transposeTo, ofFn_dims, List.filterMap_append]
+    congr 1
+    · have := filter_names a.dims (fun d => !(gd.map (·.1)).contains d)
+      simp only [names]
+      rw [← this]
+      apply filterMap_lookup_self
+      · rw [this]; exact hwf.2.filter _
+      · intro d hd
+        exact lookup_dims a.dims hwf.2 d (List.mem_filter.mp hd).1
+    · exact filterMap_lookup_self gd hgn a.dims (fun d hd => lookup_dims a.dims hwf.2 d (hsub d hd))
+  · have hperm : ((a.names.filter (fun d => !(gd.map (·.1)).contains d)) ++ gd.map (·.1)).Perm a.names :=
+      moveOrder_perm a.names _ hwf.2 hgn (by
+        intro d hd
+        obtain ⟨d', hd', rfl⟩ := List.mem_map.mp hd
+        exact List.mem_map_of_mem (hsub d' hd'))
+    have hp := transposeTo_dims_perm a _ hwf hperm
+    have hw := transposeTo_wf a _ hwf hperm
+    rw [hw.1, hwf.1]
+    simp only [shape]
+    have : ∀ (l₁ l₂ : List Dim), l₁.Perm l₂ → size (l₁.map (·.2)) = size (l₂.map (·.2)) := by
+      intro l₁ l₂ h
+      induction h with
+      | nil => rfl
+      | cons x _ ih => simp [size, ih]
+      | swap x y l => simp [size, Nat.mul_left_comm]
+      | trans _ _ ih1 ih2 => exact ih1.trans ih2
+    exact this _ _ hp
+
+/-- Values are only moved, never altered: every read of the moved array equals the read of
+the original at the same assignment of indexes to dimension names. -/
+theorem moveToEnd_get [Inhabited α] (a : NArr α) (gd : List Dim) (hwf : a.WF)
+    (hgn : (gd.map (·.1)).Nodup) (hsub : ∀ d ∈ gd, d ∈ a.dims) :
+    ∃ m, a.moveToEnd (gd.map (·.1)) = some m ∧ m.WF ∧
+      ∀ (e : Env) (v : String → Nat), (∀ d ∈ a.dims, e.get d.1 = some (v d.1) ∧ v d.1 < d.2) →
+        m.get? e = a.get? e := by
+  have hall : (gd.map (·.1)).all (a.names.contains ·) = true := by
+    simp only [List.all_eq_true, List.contains_iff_mem]
+    intro d hd
+    obtain ⟨d', hd', rfl⟩ := List.mem_map.mp hd
+    exact List.mem_map_of_mem (hsub d' hd')
+  have hperm : ((a.names.filter (fun d => !(gd.map (·.1)).contains d)) ++ gd.map (·.1)).Perm a.names :=
+    moveOrder_perm a.names _ hwf.2 hgn (by
+      intro d hd
+      obtain ⟨d', hd', rfl⟩ := List.mem_map.mp hd
+      exact List.mem_map_of_mem (hsub d' hd'))
+  refine ⟨_, by unfold moveToEnd; rw [if_pos hall], transposeTo_wf a _ hwf hperm, ?_⟩
+  intro e v hv
+  exact transposeTo_get a _ e v hwf hperm hv
+
+/-- A named dimension the array lacks is refused. -/
+theorem moveToEnd_missing [Inhabited α] (a : NArr α) (dims : List String) (d : String)
+    (hd : d ∈ dims) (hnot : d ∉ a.names) : a.moveToEnd dims = none := by
+  have : ¬ (dims.all (a.names.contains ·) = true) := by
+    intro hall
+    rw [List.all_eq_true] at hall
+    have := hall d hd
+    rw [List.contains_iff_mem] at this
+    exact hnot this
+  unfold moveToEnd
+  rw [if_neg this]
+
+/-! ### flatten then wind -/
+
+/-- **wind ∘ ravel**: flattening the grid dimensions `gd` (anywhere, in any order, among any
+other dimensions) into a fresh linear dimension and winding that dimension back gives the
+array transposed to `others ++ gd` — i.e. exactly `move_dimensions_to_end`, whose reads
+equal the original's (`moveToEnd_get`): other dimensions and their order are untouched. -/
+theorem wind_ravel [Inhabited α] (a : NArr α) (gd : List Dim) (lin : String) (hwf : a.WF)
+    (hgn : (gd.map (·.1)).Nodup) (hsub : ∀ d ∈ gd, d ∈ a.dims)
+    (hfresh : lin ∉ (a.dims.filter (fun d => !(gd.map (·.1)).contains d.1)).map (·.1)) :
+    ∃ r, a.ravelDims (gd.map (·.1)) (some lin) = some r ∧
+      r.dims = a.dims.filter (fun d => !(gd.map (·.1)).contains d.1) ++ [(lin, size (gd.map (·.2)))] ∧
+      r.windDim gd lin = a.moveToEnd (gd.map (·.1)) := by
+  obtain ⟨m, hm, hdims, _⟩ := moveToEnd_dims a gd hwf hgn hsub
+  let others := a.dims.filter (fun d => !(gd.map (·.1)).contains d.1)
+  have hlen : m.dims.length - (gd.map (·.1)).length = others.length := by
+    simp [hdims, others]
+  have htake : m.dims.take others.length = others := by simp [hdims, others]
+  have hdrop : m.dims.drop others.length = gd := by simp [hdims, others]
+  have hfresh' : lin ∉ others.map (·.1) := hfresh
+  have hcont : ((others.map (·.1)).contains lin) = false := by
+    cases h : (others.map (·.1)).contains lin with
+    | false => rfl
+    | true => exact absurd (List.contains_iff_mem.mp h) hfresh'
+  refine ⟨{ dims := others ++ [(lin, size (gd.map (·.2)))], data := m.data }, ?_, rfl, ?_⟩
+  · simp only [ravelDims, hm, hlen, htake, hdrop, Option.getD_some, hcont]
+    simp
+  · -- winding: the linear dimension sits right after `others`
+    have hidx : (others.map (·.1) ++ lin :: []).idxOf? lin = some others.length := by
+      have := idxOf_append_fresh (others.map (·.1)) lin [] hfresh'
+      simpa using this
+    have hgdfresh : gd.any (fun d => (others.map (·.1)).contains d.1) = false := by
+      rw [List.any_eq_false]
+      intro d hd
+      simp only [List.contains_iff_mem, others, List.mem_map, List.mem_filter, not_exists, not_and]
+      intro x hx hx1
+      have : d.1 ∈ gd.map (·.1) := List.mem_map_of_mem hd
+      simp [hx1, this] at hx
+    simp only [windDim, names, shape, List.map_append, List.map_cons, List.map_nil, hidx]
+    have htk : List.take others.length (others ++ [(lin, size (gd.map (·.2)))]) = others := by simp
+    have hdr : List.drop 1 (List.drop others.length (others ++ [(lin, size (gd.map (·.2)))])) = [] := by simp
+    have h2 : (others.map (·.2) ++ [size (gd.map (·.2))]).getD others.length 0 = size (gd.map (·.2)) := by
+      simp [List.getD_eq_getElem?_getD]
+    rw [h2]
+    simp only [htk, hdr, List.map_nil, List.append_nil, ne_eq, not_true_eq_false, if_false, hgdfresh,
+      Bool.false_eq_true]
+    rw [hm]
+    have : splice (others ++ [(lin, size (gd.map (·.2)))]) others.length gd = others ++ gd := by
+      simp [splice]
+    rw [this]
+    cases m
+    simp only at hdims
+    simp [hdims, others]
+
+/-- A custom linear name that collides with a remaining dimension is refused,
+never silently accepted. -/
+theorem ravel_collision_refused [Inhabited α] (a : NArr α) (dims : List String) (lin : String)
+    (m : NArr α) (hm : a.moveToEnd dims = some m)
+    (hcol : lin ∈ (m.dims.take (m.dims.length - dims.length)).map (·.1)) :
+    a.ravelDims dims (some lin) = none := by
+  have : ((m.dims.take (m.dims.length - dims.length)).map (·.1)).contains lin = true :=
+    List.contains_iff_mem.mpr hcol
+  unfold ravelDims
+  simp only [hm, Option.getD_some]
+  rw [if_pos this]
+
+/-! ### grid kind inference -/
+
+/-- A variable none of whose dimension sets covers a grid is refused. -/
+theorem no_grid_refused [Inhabited α] (c : GridConv) (a : NArr α) (lin : Option String)
+    (h : ∀ g ∈ c.grids, ∃ d ∈ g.2, d.1 ∉ a.names) : c.ravel a lin = none := by
+  have : c.getGridKind a.names = none := by
+    simp only [GridConv.getGridKind, Option.map_eq_none_iff, List.find?_eq_none]
+    intro g hg
+    obtain ⟨d, hd, hn⟩ := h g hg
+    intro hall
+    rw [List.all_eq_true] at hall
+    exact hn (List.contains_iff_mem.mp (hall d hd))
+  simp [GridConv.ravel, this]
+
+/-- The grid kind chosen is the first, in declaration order, whose dimensions are all
+present (superset test). -/
+theorem kind_first_match (c : GridConv) (names : List String) (k : String)
+    (h : c.getGridKind names = some k) :
+    ∃ pre g post, c.grids = pre ++ g :: post ∧ g.1 = k ∧ (∀ d ∈ g.2, d.1 ∈ names) ∧
+      ∀ g' ∈ pre, ∃ d ∈ g'.2, d.1 ∉ names := by
+  simp only [GridConv.getGridKind, Option.map_eq_some_iff] at h
+  obtain ⟨g, hg, rfl⟩ := h
+  obtain ⟨hp, pre, post, hsplit, hpre⟩ := List.find?_eq_some_iff_append.mp hg
+  refine ⟨pre, g, post, hsplit, rfl, ?_, ?_⟩
+  · simpa [List.all_eq_true, List.contains_iff_mem] using hp
+  · intro g' hg'
+    have := hpre g' hg'
+    simpa [List.all_eq_true, List.contains_iff_mem] using this
+
+/-! ### winding modes -/
+
+/-- `axis`, the default (last dimension) and an explicit name select the linear dimension
+as Python indexing does; an axis outside `[-rank, rank)` is refused. -/
+theorem pyIndex_neg_one {β : Type} (l : List β) (x : β) : GridConv.pyIndex (l ++ [x]) (-1) = some x := by
+  have h1 : ¬ ((0 : Int) ≤ -1) := by omega
+  have h2 : (-(-1 : Int)) ≤ ((l ++ [x]).length : Int) := by simp; omega
+  have h3 : (l ++ [x]).length - (-(-1 : Int)).toNat = l.length := by simp
+  simp only [GridConv.pyIndex, h1, if_false, h2, if_true, h3]
+  simp
+
+theorem pyIndex_out_of_range {β : Type} (l : List β) (i : Int)
+    (h : (l.length : Int) ≤ i ∨ i < -(l.length : Int)) : GridConv.pyIndex l i = none := by
+  simp only [GridConv.pyIndex]
+  rcases h with h | h
+  · have h0 : 0 ≤ i := by omega
+    have : l.length ≤ i.toNat := by omega
+    rw [if_pos h0]
+    exact List.getElem?_eq_none this
+  · have h0 : ¬ (0 ≤ i) := by omega
+    have : ¬ (-i ≤ (l.length : Int)) := by omega
+    rw [if_neg h0, if_neg this]
+
+/-! ### non-vacuity -/
+
+def exA : NArr Int := { dims := [("y", 2), ("t", 2), ("x", 3)], data := [0,1,2,3,4,5,6,7,8,9,10,11] }
+def exConv : GridConv := { grids := [("face", [("y", 2), ("x", 3)])], default := "face" }
+
+example : exA.WF := by constructor <;> decide
+example : exA.moveToEnd ["y", "x"] = some { dims := [("t", 2), ("y", 2), ("x", 3)], data := [0,1,2,6,7,8,3,4,5,9,10,11] } := by decide
+example : exConv.ravel exA (some "index") = some { dims := [("t", 2), ("index", 6)], data := [0,1,2,6,7,8,3,4,5,9,10,11] } := by decide
+example : (exConv.ravel exA (some "index")).bind (fun r => exConv.wind r none none none) = exA.moveToEnd ["y", "x"] := by decide
+example : exConv.ravel exA (some "t") = none := by decide
+example : exConv.ravel ({ dims := [("t", 2)], data := [1, 2] } : NArr Int) none = none := by decide
+
 end Ems.C03
